@@ -22,7 +22,12 @@
 //	    by a non-owner changes nothing under the root (value and mod revision of every
 //	    key) and reports an error; by the owner without injected fault it succeeds;
 //	(4) a contender that resigned, expired locally, lost or never won a campaign has
-//	    Check()==false, IsLeader()==false and gets no timestamp.
+//	    Check()==false, IsLeader()==false and gets no timestamp;
+//	(5) every id an allocator returns lies in a window (lo, hi] that this very member
+//	    durably stored with one of its own applied transactions (hence while it owned the
+//	    record) - never above its own last stored bound, never inside another member's
+//	    window; after a rejected window extension further Alloc calls keep failing or
+//	    serve only what is left of such an own window.
 package c03
 
 import (
@@ -111,7 +116,7 @@ type Case struct {
 }
 
 var (
-	pdKinds   = []string{"txn", "txn", "txncmp", "prio-set", "prio-set", "prio-del", "dcloc-del", "id-rebase", "id-rebase", "id-alloc", "tso-init", "tso-update", "tso-update", "tso-set", "enc", "suffix"}
+	pdKinds   = []string{"txn", "txn", "txncmp", "prio-set", "prio-set", "prio-del", "dcloc-del", "id-rebase", "id-rebase", "id-alloc", "id-alloc", "id-few", "tso-init", "tso-update", "tso-update", "tso-set", "enc", "suffix"}
 	dcKinds   = []string{"txn", "txn", "txncmp", "tso-init", "tso-update", "tso-update", "tso-set", "tso-write"}
 	raceKinds = map[string][]string{"pd": {"txn", "prio-set", "id-rebase", "tso-update"}, "dc": {"txn", "tso-update"}}
 	drops     = []string{"resign", "lexp-eexp", "lexp-eexp", "eexp", "eexp", "oobdel", "oobdel", "overwrite", "lexp"}
@@ -143,7 +148,23 @@ func genCase(t *rapid.T) Case {
 		c.Ops = append(c.Ops, Op{K: "campaign", I: i, TTL: ttl()}, Op{K: "write", I: i, W: "tso-init"})
 	}
 	for len(c.Ops) < nops {
-		switch k := rapid.IntRange(0, 29).Draw(t, "kind"); {
+		switch k := rapid.IntRange(0, 32).Draw(t, "kind"); {
+		case k >= 30 && c.Domain == "pd":
+			// id hand-over: the holder allocates, loses the record behind its back, the new owner
+			// extends the id window, then the old holder drains its window and keeps asking
+			idw := func(rel, kind string) Op {
+				return Op{K: "write", I: who("idi"), Rel: rel, W: kind, N: rapid.IntRange(0, 5).Draw(t, "idn")}
+			}
+			c.Ops = append(c.Ops, idw("cur", rapid.SampledFrom([]string{"id-few", "id-few", "id-rebase", "id-alloc"}).Draw(t, "id0")),
+				Op{K: "drop", I: who("di"), How: rapid.SampledFrom([]string{"oobdel", "eexp", "overwrite", "lexp-eexp", "resign"}).Draw(t, "idhow"), T: rapid.IntRange(0, c.N).Draw(t, "dt")},
+				Op{K: "campaign", I: who("ci"), Rel: "notprev", TTL: ttl()})
+			if rapid.IntRange(0, 3).Draw(t, "newext") != 0 {
+				c.Ops = append(c.Ops, idw("cur", rapid.SampledFrom([]string{"id-rebase", "id-few", "id-alloc"}).Draw(t, "id1")))
+			}
+			c.Ops = append(c.Ops, idw("prev", rapid.SampledFrom([]string{"id-alloc", "id-alloc", "id-rebase"}).Draw(t, "id2")))
+			if rapid.Bool().Draw(t, "idmore") {
+				c.Ops = append(c.Ops, idw("cur", "id-alloc"), idw("prev", rapid.SampledFrom([]string{"id-few", "id-alloc"}).Draw(t, "id3")))
+			}
 		case k < 3:
 			c.Ops = append(c.Ops, Op{K: "campaign", I: who("i"), TTL: ttl(), Fail: fail(6, "grant-before", "txn-before", "txn-lostack")})
 		case k < 9:
@@ -296,6 +317,7 @@ var (
 )
 
 const (
+	idStep       = uint64(1000) // id.allocStep: a window extension stores "previous bound + 1000"
 	saveInterval = 3 * time.Second
 	grantLatency = time.Second // virtual time that passes while a LeaseGrant is in flight
 	encKeysPath  = encryptionkm.EncryptionKeysPath
@@ -387,6 +409,8 @@ type cont struct {
 	expire     time.Duration // clock offset after which the current lease is locally expired
 	noLease    bool          // last campaign failed before a lease was granted (see grantFaultNote)
 	isNext     bool          // dc: last campaign used the "I am the next leader" compare
+	wins       [][2]uint64   // id windows (lo, hi] stored by its own applied transactions
+	nIDs       int
 }
 
 type world struct {
@@ -411,6 +435,8 @@ type world struct {
 	holders          map[int]bool
 	nonOwnerAttempts int
 	step             int
+	allocKey         string
+	idErr            error // first violation of clause (5)
 }
 
 var errRejected = errors.New("guarded txn not succeeded")
@@ -473,6 +499,13 @@ func (w *world) install() {
 				}
 			}
 			w.mu.Lock()
+			if ev.Method == "Txn" && ev.Applied && si < len(w.cs) {
+				if v, ok := ev.Puts[w.allocKey]; ok {
+					if hi, err := typeutil.BytesToUint64([]byte(v)); err == nil && hi >= idStep {
+						w.cs[si].wins = append(w.cs[si].wins, [2]uint64{hi - idStep, hi})
+					}
+				}
+			}
 			w.events = append(w.events, r)
 			if r.leaseID != 0 {
 				w.leases = append(w.leases, r.leaseID)
@@ -980,14 +1013,25 @@ func (w *world) writeCall(c *cont, op Op) (err error, ran bool) {
 	case "dcloc-del":
 		return c.m.DeleteMemberDCLocationInfo(tgt.id), true
 	case "id-rebase":
-		return c.ida.Rebase(), true
+		err := c.ida.Rebase()
+		w.allocMore(c, 1+op.N%3)
+		return err, true
 	case "id-alloc":
-		for k := 0; k < 1001; k++ {
-			if _, err := c.ida.Alloc(); err != nil {
-				return err, true
-			}
+		// 1001 calls always run past the end of whatever window is left in memory
+		var err error
+		for k := 0; k < 1001 && err == nil; k++ {
+			_, err = w.alloc(c)
 		}
-		return nil, true
+		// a retrying client / the next AllocID requests after the rejection
+		w.allocMore(c, 1+op.N%3)
+		return err, true
+	case "id-few":
+		// a few ids from whatever the member has in memory (and one extension if it needs one)
+		var err error
+		for k := 0; k < 1+op.N && err == nil; k++ {
+			_, err = w.alloc(c)
+		}
+		return err, true
 	case "tso-init":
 		if !c.held {
 			return nil, false
@@ -1033,7 +1077,55 @@ func (w *world) writeCall(c *cont, op Op) (err error, ran bool) {
 	return nil, false
 }
 
-func guardedKind(k string) bool { return k != "id-rebase" && k != "id-alloc" && k != "suffix" }
+func guardedKind(k string) bool {
+	return k != "id-rebase" && k != "id-alloc" && k != "id-few" && k != "suffix"
+}
+
+// alloc is one Alloc() of contender c with clause (5) applied to the id it returns.
+func (w *world) alloc(c *cont) (uint64, error) {
+	v, err := c.ida.Alloc()
+	if err != nil {
+		return 0, err
+	}
+	c.nIDs++
+	w.mu.Lock()
+	defer w.mu.Unlock()
+	for _, win := range c.wins {
+		if v > win[0] && v <= win[1] {
+			return v, nil
+		}
+	}
+	if w.idErr != nil {
+		return v, nil
+	}
+	var last uint64
+	for _, win := range c.wins {
+		if win[1] > last {
+			last = win[1]
+		}
+	}
+	for _, o := range w.cs {
+		if o == c {
+			continue
+		}
+		for _, win := range o.wins {
+			if v > win[0] && v <= win[1] {
+				w.idErr = fmt.Errorf("Alloc of %s returned id %d (its %d. id), which lies in the window (%d, %d] stored by %s; the last bound %s itself stored is %d",
+					c.name, v, c.nIDs, win[0], win[1], o.name, c.name, last)
+				return v, nil
+			}
+		}
+	}
+	w.idErr = fmt.Errorf("Alloc of %s returned id %d (its %d. id), which lies in no window this member stored itself (own windows %v, last own stored bound %d)",
+		c.name, v, c.nIDs, c.wins, last)
+	return v, nil
+}
+
+func (w *world) allocMore(c *cont, n int) {
+	for k := 0; k < n; k++ {
+		w.alloc(c)
+	}
+}
 
 func (w *world) doWrite(c *cont, op Op) error {
 	w.clock.set(c.idx)
@@ -1061,6 +1153,9 @@ func (w *world) doWrite(c *cont, op Op) error {
 	werr, ran := w.writeCall(c, op)
 	w.clearFaults()
 	evs := w.takeEvents()
+	if w.idErr != nil {
+		return fmt.Errorf("write %q by %s (record: present %v, value of %s): %v", op.W, c.name, lrOK, w.nameOf(lr.V), w.idErr)
+	}
 	if !ran {
 		w.info.Class("write-not-applicable:" + op.W)
 		return nil
@@ -1519,6 +1614,7 @@ func newWorld(c Case, info *vkit.Info) (*world, error) {
 	} else {
 		w.leaderKey = path.Join(root, "leader")
 	}
+	w.allocKey = path.Join(root, "alloc_id")
 	for i := 0; i < c.N; i++ {
 		ct := &cont{idx: i, name: fmt.Sprintf("m%d", i), id: uint64(101 + i)}
 		ct.m = member.NewMember(f.Etcd, sl[i].client, ct.id)
@@ -1625,6 +1721,9 @@ func runCase(c Case) (info vkit.Info, rerr error) {
 			}
 		case "race":
 			err = w.doRace(op)
+		}
+		if err == nil && w.idErr != nil {
+			err = w.idErr
 		}
 		if err != nil {
 			return info, fmt.Errorf("op %d %s: %v", step, describe(op), err)
